@@ -7,10 +7,8 @@
 #define FCPPT_ENUM_FROM_INT_HPP_INCLUDED
 
 #include <fcppt/cast/int_to_enum.hpp>
-#include <fcppt/cast/size.hpp>
 #include <fcppt/enum/is_object.hpp>
 #include <fcppt/enum/size.hpp>
-#include <fcppt/enum/size_type.hpp>
 #include <fcppt/optional/make_if.hpp>
 #include <fcppt/optional/object_impl.hpp>
 #include <fcppt/config/external_begin.hpp>
@@ -43,7 +41,7 @@ template <
 fcppt::optional::object<Enum> from_int(Value const &_value) noexcept
 {
   return fcppt::optional::make_if(
-      fcppt::cast::size<fcppt::enum_::size_type<Enum>>(_value) < fcppt::enum_::size<Enum>::value,
+      _value < fcppt::enum_::size<Enum>::value,
       [&_value] { return fcppt::cast::int_to_enum<Enum>(_value); });
 }
 }
